@@ -1,0 +1,120 @@
+//! C01 adapter, `negotiate_connection` part: the real `TcpConnection::negotiate_connection` (multistream
+//! `/noise`, Noise handshake, dialed-peer comparison, multistream `/yamux/1.0.0`) for both roles over a
+//! loopback TCP connection, optionally through a relay that flips one byte of the dialer -> listener
+//! stream (absolute stream offset). Observation per side: `ok:k<i>` (a `NegotiatedConnection` for the
+//! peer of identity key `i`) or `err:<class>`. Timeouts are generous (10 s) and never observed in an
+//! untampered or message-3-tampered run; timing is not compared.
+
+use super::TcpConnection;
+use crate::{
+    config::Role, crypto::noise::verif_c01::key, error::NegotiationError,
+    transport::common::listener::AddressType, types::ConnectionId,
+};
+
+use tokio::{
+    io::{AsyncReadExt, AsyncWriteExt},
+    net::{TcpListener, TcpStream},
+};
+
+use std::time::Duration;
+
+fn class(e: &NegotiationError) -> &'static str {
+    match e {
+        NegotiationError::MultistreamSelectError(_) => "mss",
+        NegotiationError::SnowError(_) => "snow",
+        NegotiationError::PeerIdMissing => "peer-id-missing",
+        NegotiationError::BadSignature => "bad-signature",
+        NegotiationError::Timeout => "timeout",
+        NegotiationError::ParseError(_) => "parse",
+        NegotiationError::IoError(_) => "io",
+        NegotiationError::StateMismatch => "state",
+        NegotiationError::PeerIdMismatch(_, _) => "peer-id-mismatch",
+        _ => "other",
+    }
+}
+
+async fn relay(mut from: tokio::net::tcp::OwnedReadHalf, mut to: tokio::net::tcp::OwnedWriteHalf, flip: Option<usize>) {
+    let mut pos = 0usize;
+    let mut buf = [0u8; 4096];
+    loop {
+        match from.read(&mut buf).await {
+            Ok(0) | Err(_) => break,
+            Ok(n) => {
+                if let Some(f) = flip {
+                    if f >= pos && f < pos + n {
+                        buf[f - pos] ^= 0x01;
+                    }
+                }
+                pos += n;
+                if to.write_all(&buf[..n]).await.is_err() {
+                    break;
+                }
+            }
+        }
+    }
+    let _ = to.shutdown().await;
+}
+
+/// `d`, `l`: identity keys of dialer and listener; `dialed`: the key whose peer id the dialer expects.
+pub(crate) fn negotiate(d: usize, l: usize, dialed: Option<usize>, flip: Option<usize>) -> String {
+    let rt = tokio::runtime::Builder::new_current_thread().enable_all().build().expect("runtime");
+    rt.block_on(async move {
+        let listener = TcpListener::bind("127.0.0.1:0").await.expect("bind");
+        let addr = listener.local_addr().expect("addr");
+        let (ds, ls) = match flip {
+            None => {
+                let (a, b) = tokio::join!(TcpStream::connect(addr), listener.accept());
+                (a.expect("connect"), b.expect("accept").0)
+            }
+            Some(_) => {
+                let front = TcpListener::bind("127.0.0.1:0").await.expect("bind");
+                let faddr = front.local_addr().expect("addr");
+                let (a, b) = tokio::join!(TcpStream::connect(faddr), front.accept());
+                let (ds, mid_d) = (a.expect("connect"), b.expect("accept").0);
+                let (c, e) = tokio::join!(TcpStream::connect(addr), listener.accept());
+                let (mid_l, ls) = (c.expect("connect"), e.expect("accept").0);
+                let (dr, dw) = mid_d.into_split();
+                let (lr, lw) = mid_l.into_split();
+                tokio::spawn(relay(dr, lw, flip));
+                tokio::spawn(relay(lr, dw, None));
+                (ds, ls)
+            }
+        };
+        let t = Duration::from_secs(10);
+        let dialed_peer = dialed.map(|i| key(i).public().to_peer_id());
+        let (a, b) = tokio::join!(
+            TcpConnection::negotiate_connection(
+                ds,
+                dialed_peer,
+                ConnectionId::from(0usize),
+                key(d),
+                Role::Dialer,
+                AddressType::Socket(addr),
+                Default::default(),
+                crate::crypto::noise::MAX_READ_AHEAD_FACTOR,
+                crate::crypto::noise::MAX_WRITE_BUFFER_SIZE,
+                t,
+            ),
+            TcpConnection::negotiate_connection(
+                ls,
+                None,
+                ConnectionId::from(1usize),
+                key(l),
+                Role::Listener,
+                AddressType::Socket(addr),
+                Default::default(),
+                crate::crypto::noise::MAX_READ_AHEAD_FACTOR,
+                crate::crypto::noise::MAX_WRITE_BUFFER_SIZE,
+                t,
+            )
+        );
+        let show = |r: &Result<super::NegotiatedConnection, NegotiationError>| match r {
+            Ok(c) => match (0..16).find(|i| key(*i).public().to_peer_id() == c.peer) {
+                Some(i) => format!("ok:k{i}"),
+                None => "ok:?".to_string(),
+            },
+            Err(e) => format!("err:{}", class(e)),
+        };
+        format!("D={} L={}", show(&a), show(&b))
+    })
+}
